@@ -4,6 +4,7 @@ dimensionally homogeneous -- from which covariance under a change of units follo
 the numbers after rounding."""
 import ast
 
+from .. import pysym as _pysym
 from .. import pyfe, pya, dim, ffi
 from ..core import AnalysisError
 from . import c12, c20
@@ -95,7 +96,8 @@ def rule_boundary(ctx, py, tu, R="C04.BOUNDARY"):
                     ("librdengine.LibRDEngine._get_data", "quantity_units_dimensions()")):
         f = py.fn(q)
         rets = [r for r in ast.walk(f) if isinstance(r, ast.Return)]
-        s = pyfe.src(rets[0].value).replace(" ", "") if rets else ""
+        # named temporaries (`engine_units = Units(..)`) written out; the array of numbers keeps its name
+        s = _pysym.isrc(rets[0].value, f, stop={"values", "data", "t_sample"}).replace(" ", "") if rets else ""
         ok = "units=Units(sys=self._units_system,dim=%s)" % dimf in s and s.endswith(".convert(self._script.units_system)")
         ctx.check(ok, R, rets[0] if rets else f, q, s[:100], "engine numbers labelled with the engine units and dimension, "
                   "then converted to the script's units", "the output is labelled with units other than the ones the engine "
